@@ -7,6 +7,12 @@ Open Scope list_scope.
 
 Definition target_now := target targetURLAssignedFields.
 
+(* nothing in the package wraps a request in a deadline, a timeout handler or a size limit: what is outside the shim prefix
+   goes to the wrapped handler as it came, for as long as it takes *)
+Theorem C13_normal_path_unlimited : websocketsLimitCalls = [].
+Proof. reflexivity. Qed.
+Print Assumptions C13_normal_path_unlimited.
+
 Theorem C13_overwritten_fields :
   mentions targetURLAssignedFields "Scheme" = true /\ mentions targetURLAssignedFields "Host" = true /\ mentions targetURLAssignedFields "Opaque" = true.
 Proof. repeat split; reflexivity. Qed.
